@@ -366,7 +366,7 @@ func main() {
 		ID:    "C13",
 		Level: "exploration",
 		Rule: "faithfulness: a case is (component, set of written keys with generated values); the key universe and the field types come from reflection over the factories' default configs (otlp receiver; otlp, otlphttp, debug, nop exporters; " +
-			"batch, memory_limiter processors; forward connector; zpages, memory_limiter extensions; service section); distinct = (component, written key set). strictness: (variant kind, insertion path / mutated reference); the unknown-key variant is enumerated for every struct node of every component. " +
+			"batch, memory_limiter processors; forward connector; zpages, memory_limiter extensions; service section); distinct = (component, written key set). strictness: (variant kind, insertion path / mutated reference); the unknown-key variant is enumerated for every struct node of every component; dangling references use ids defined nowhere and ids defined (and validly used) in another section, all ordered section pairs, same and other pipeline, service::extensions. " +
 			"validation: (perturbed loaded configuration); non-trivial when the independent walker obtained >= 1 Validate() error. Every case that reached the loader is non-trivial",
 		Assumptions: []string{
 			"values are produced from Go values of the field's type (Duration.String, the text form of enum-like text-unmarshaler types from a table, URL paths with a leading '/', endpoints, TLS versions); keys whose type the generator cannot produce are counted as uncovered, never guessed",
